@@ -904,6 +904,22 @@ def _add_producers():
     _producer('mean', _mean)
     _producer('compare', lambda self, o, a, b: R.compare(a, b, method=['cosine', 'corr', 'spearman', 'rho-a', 'tau-a', 'cosine_cov'][o['a'][0] % 6]), needs_two=True)
 
+    def _tmpsave(self, o, a):
+        # saving is among the operations of the statement (the file itself is C16's business): to a scratch file, removed at once
+        import os
+        import tempfile
+        d = tempfile.mkdtemp(prefix='verif-c12-')
+        try:
+            ft = 'hdf5' if o['flag'] else 'pkl'
+            a.save(os.path.join(d, 'x.' + ('h5' if o['flag'] else 'pkl')), file_type=ft, overwrite=o['flag2'])
+        finally:
+            import shutil
+            import gc as _gc
+            _gc.collect()
+            shutil.rmtree(d, ignore_errors=True)
+        return None
+    _producer('tmpfile_save', _tmpsave)
+
     def _pool(self, o, a):
         from rsatoolbox.util.inference_util import pool_rdm
         return pool_rdm(a, method=['cosine', 'corr', 'spearman', 'euclid'][o['a'][0] % 4])
